@@ -115,7 +115,7 @@ func init() { table["b"] = 2 }
 
 func TestInventoryClasses(t *testing.T) {
 	dir := t.TempDir()
-	os.Setenv("TMPDIR", dir) // private cache
+	t.Setenv("TMPDIR", dir) // private cache (restored when the test ends: later tests need a live temporary directory)
 	if err := os.WriteFile(filepath.Join(dir, "go.mod"), []byte("module example.com/m\n\ngo 1.19\n"), 0o644); err != nil {
 		t.Fatal(err)
 	}
